@@ -30,11 +30,12 @@ EXACT = ["as:0", "as:2", "as3", "typeid", "exec:1", "exec:2", "exec_witness:2"]
 # opaque programs (multi-VM, exec chains, failures); second field: heavy (thorough tier / fewer schedules)
 OPAQUE_QUICK = ["cases:1", "cases:3", "cases:5", "cases:6", "cases:7", "cases:9", "cases:2", "cases:4", "cases:12",
                 "cases:13", "strcat", "spawn_exec", "current_cycles", "io:128:1", "fail:0", "fail:2", "mix:1", "mix:2",
-                "mix:5", "exec:1", "saturate", "create17"]
+                "mix:5", "exec:1", "saturate", "create17", "typeid_create:0", "typeid_badhash:1", "typeid_two", "typeid_args:2"]
 OPAQUE_THOROUGH = ["cases:%d" % i for i in range(1, 20)] + [
     "strcat", "strcat_wrap", "spawn_exec", "current_cycles", "spawn_cycles", "spawn_times", "io:128:1", "io:1152:0",
     "fail:0", "fail:1", "fail:2", "mix:1", "mix:2", "mix:5", "mix:9", "exec:1", "exec:2", "exec_witness:1",
-    "saturate", "create17", "recursive", "fuzzing:1", "fuzzing:2", "fuzzing:3"]
+    "saturate", "create17", "recursive", "fuzzing:1", "fuzzing:2", "fuzzing:3",
+    "typeid_create:0", "typeid_create:2", "typeid_badhash:1", "typeid_two", "typeid_args:2"]
 
 
 # ------------------------------------------------------------------------------------------------
